@@ -308,6 +308,8 @@ def c16(prog, rep):
     BL.rule_codec_framing(prog, rep)
     BL.rule_codec_purity(prog, rep)
     BL.rule_query_pairs_stored(prog, rep)
+    from . import dlist as DL
+    DL.rule_decode_last(prog, rep, fname='qparse_queries', rid='TB19')     # the query parser trims/splits still-encoded text
     rep.explanation = (
         'Exhaustive check of every entry of the five codec tables, read from their initialiser lists in the type-checked AST '
         '(located by role and length inside their functions, not by name): URL classification table (256 entries: value is 0 '
@@ -363,6 +365,7 @@ def c01(prog, rep):
     E.rule_r2_fill(prog, rep, [T.UNIT])
     T.rule_t6(prog, rep)
     T.rule_fixup_bypass(prog, rep, rid='T9')
+    T.rule_t13(prog, rep)
     from . import bufrules as BW
     BW.rule_fmt_complete(prog, rep, [T.UNIT])
     BW.rule_valist_once(prog, rep, [T.UNIT])
@@ -468,6 +471,7 @@ def c18(prog, rep):
     BL.rule_codec_purity(prog, rep, rid='H9', unit='src/utilities/qhash.c', what='hash functions')
     from . import dimrules as DM
     DM.rule_dim1(prog, rep, ['src/utilities/qhash.c'])
+    DM.rule_wid1(prog, rep, ['src/utilities/qhash.c', 'src/internal/md5/md5c.c'])
     rep.explanation = (
         'Agreement with the published algorithms as value graphs, decided on the AST without computing any hash: each function is '
         'turned by forward substitution (helpers inlined, const locals substituted, rotates recognised, commutative operands '
